@@ -1635,8 +1635,17 @@ def recognise(prop, failure, kf):
         if f["property"] != prop:
             continue
         rec = f.get("recogniser")
-        if rec == "D5" and op == "split":
-            ms, caps = inp
+        if rec == "D5" and op in ("split", "concat_repeat"):
+            if op == "concat_repeat":          # the same finding reached through a repeated section: look at the piece that is split
+                try:
+                    piece, follow = _shared_piece(inp)
+                except Exception:
+                    continue
+                if follow[0] != "OSplit":
+                    continue
+                ms, caps = rel_of(piece), follow[2]
+            else:
+                ms, caps = inp
             d = sum(m[2] for m in ms if m[0] == "WAIT")
             # zero-time non-note events after the last wait, with the capacities used up exactly at the end
             tail = []
